@@ -16,6 +16,12 @@
 (*                       fill a holder; it does not go through AppendValue)                *)
 (*   Delete(n)           del holder[n]                                                     *)
 (*   List                GetSeriesList()  (a query: no table, nothing stored changes)      *)
+(*   Condition(n, sp)    the equation block carries an initial condition "n(0) = v" (sp:   *)
+(*                       spelled "n (0) = v", which the parser files under the key "n ").  *)
+(*                       n may be a variable of the block or a name that has no equation   *)
+(*                       (a condition left behind when the equation was deleted): the      *)
+(*                       library tolerates that, and such a condition stores NO series -   *)
+(*                       the stored series are the model's variables, each horizon+1 long. *)
 (*   StateHorizon(place, h)  the user states the horizon h: place "block" = a MaxTime line  *)
 (*                       in the equation text, "model" = Model.MaxTime (which Model.main()   *)
 (*                       writes as the MaxTime line of the block it generates), "solver" =   *)
@@ -146,12 +152,13 @@ VARIABLES phase,     \* "build" | "run" (the holder is a solver's, after a solve
           solved,    \* [is, horizon]: SolveEquation() succeeded with this horizon and the holder is untouched since
           table,     \* the table of the last Render, NoTable once the holder has been changed
           stated,    \* [block, solver]: where a horizon has been stated, each [is, h]
+          conds,     \* initial conditions written into the equation block: set of [name, sp]
           hist       \* history of calls (see Op)
 
-vars == << phase, holder, solved, table, stated, hist >>
+vars == << phase, holder, solved, table, stated, conds, hist >>
 
 Op(op, n, len, kind, fmt, h) ==
-    [op |-> op, name |-> n, len |-> len, kind |-> kind, fmt |-> fmt, h |-> h, place |-> ""]
+    [op |-> op, name |-> n, len |-> len, kind |-> kind, fmt |-> fmt, h |-> h, place |-> "", sp |-> FALSE]
 Places == {"block", "model", "solver"}
 NoHorizon == [is |-> FALSE, h |-> 0]
 Unstated == [block |-> NoHorizon, solver |-> NoHorizon]
@@ -163,7 +170,7 @@ NotSolved == [is |-> FALSE, horizon |-> 0]
 EmptyHolder == [n \in {} |-> [len |-> 0, kind |-> "int"]]
 
 Init == /\ phase = "build" /\ holder = EmptyHolder /\ solved = NotSolved
-        /\ table = NoTable /\ stated = Unstated /\ hist = << >>
+        /\ table = NoTable /\ stated = Unstated /\ conds = {} /\ hist = << >>
 
 Put(n, len, kind) ==
     /\ n \in DOMAIN holder => len > holder[n].len
@@ -171,24 +178,30 @@ Put(n, len, kind) ==
     /\ holder' = PutOp(holder, n, len, kind)
     /\ table' = NoTable /\ solved' = NotSolved
     /\ hist' = Append(hist, Op("put", n, len, kind, "", 0))
-    /\ UNCHANGED << phase, stated >>
+    /\ UNCHANGED << phase, stated, conds >>
 
 Store(n, len, kind) ==
     /\ Cardinality(DOMAIN holder \cup {n}) <= MaxNames
     /\ holder' = StoreOp(holder, n, len, kind)
     /\ table' = NoTable /\ solved' = NotSolved
     /\ hist' = Append(hist, Op("store", n, len, kind, "", 0))
-    /\ UNCHANGED << phase, stated >>
+    /\ UNCHANGED << phase, stated, conds >>
 
 Delete(n) ==
     /\ n \in DOMAIN holder
     /\ holder' = DeleteOp(holder, n)
     /\ table' = NoTable /\ solved' = NotSolved
     /\ hist' = Append(hist, Op("del", n, 0, "int", "", 0))
-    /\ UNCHANGED << phase, stated >>
+    /\ UNCHANGED << phase, stated, conds >>
 
 List ==
     /\ hist' = Append(hist, Op("list", << >>, 0, "int", "", 0))
+    /\ UNCHANGED << phase, holder, solved, table, stated, conds >>
+
+Condition(n, sp) ==
+    /\ phase = "build"
+    /\ conds' = conds \cup {[name |-> n, sp |-> sp]}
+    /\ hist' = Append(hist, [Op("cond", n, 0, "num", "", 0) EXCEPT !.sp = sp])
     /\ UNCHANGED << phase, holder, solved, table, stated >>
 
 StateHorizon(place, h) ==
@@ -196,7 +209,7 @@ StateHorizon(place, h) ==
     /\ stated' = IF place = "solver" THEN [stated EXCEPT !.solver = [is |-> TRUE, h |-> h]]
                                      ELSE [stated EXCEPT !.block = [is |-> TRUE, h |-> h]]
     /\ hist' = Append(hist, [Op("horizon", << >>, 0, "int", "", h) EXCEPT !.place = place])
-    /\ UNCHANGED << phase, holder, solved, table >>
+    /\ UNCHANGED << phase, holder, solved, table, conds >>
 
 (* SetInitialConditions gives every variable one value; each step appends one to every series *)
 Solve(vs) ==
@@ -207,7 +220,7 @@ Solve(vs) ==
     /\ phase' = "run"
     /\ table' = NoTable
     /\ hist' = Append(hist, Op("solve", << >>, 0, "num", "", Effective(stated)))
-    /\ UNCHANGED stated
+    /\ UNCHANGED << stated, conds >>
 
 SolveFailed(obs) ==
     /\ phase = "build"
@@ -216,18 +229,19 @@ SolveFailed(obs) ==
     /\ phase' = "run"
     /\ table' = NoTable
     /\ hist' = Append(hist, Op("solvefail", << >>, 0, "num", "", 0))
-    /\ UNCHANGED stated
+    /\ UNCHANGED << stated, conds >>
 
 Render(fmt) ==
     /\ fmt \in IntOnlyFormats => AllInt(holder)
     /\ table' = RenderOp(holder, fmt)
     /\ hist' = Append(hist, Op("render", << >>, 0, "int", fmt, 0))
-    /\ UNCHANGED << phase, holder, solved, stated >>
+    /\ UNCHANGED << phase, holder, solved, stated, conds >>
 
 Next == /\ Len(hist) < MaxOps
         /\ \/ \E n \in Names, len \in 0..MaxLen, kind \in Kinds : Put(n, len, kind) \/ Store(n, len, kind)
            \/ \E n \in Names : Delete(n)
            \/ List
+           \/ \E n \in Names, sp \in BOOLEAN : Condition(n, sp)
            \/ \E h \in Horizons, pl \in Places : StateHorizon(pl, h)
            \/ Solve({})
            \/ \E i \in 1..Len(FormatSeq) : Render(FormatSeq[i])
@@ -244,10 +258,13 @@ C19_RowCount ==
 
 C19_CellIsFormattedValue == table.done => CellsFromSeries(table, holder)
 
+(* what C19_RowCount rests on after a solve: a condition never adds a series, every series is complete *)
+SolvedHolderComplete == solved.is => \A n \in DOMAIN holder : holder[n].len = solved.horizon + 1
+
 TypeOK == /\ phase \in {"build", "run"}
           /\ \A n \in DOMAIN holder : holder[n].len \in Nat /\ holder[n].kind \in Kinds
           /\ Cardinality(DOMAIN holder) <= MaxNames + 2
           /\ Len(hist) <= MaxOps
           /\ solved.is => solved.horizon = Effective(stated)
-          /\ table.done => hist # << >> /\ hist[Len(hist)].op \in ObsOps \cup {"horizon"}
+          /\ table.done => hist # << >> /\ hist[Len(hist)].op \in ObsOps \cup {"horizon", "cond"}
 =============================================================================
